@@ -211,7 +211,13 @@ def execute(case):
             cfg = {'select': life['select'], 'ignore': life['ignore'], 'phased': life['phased']}
             ck = repr(sorted(cfg.items(), key=str))
             if ck not in refs:
-                refs[ck] = mk(path, cfg, False, False)      # eager, cache-less reference of this configuration
+                try:
+                    refs[ck] = mk(path, cfg, False, False)      # eager, cache-less reference of this configuration
+                except Exception as e:
+                    viol.append({'property': PROPERTY, 'class': 'constructor-raised', 'signature': 'eager/' + type(e).__name__,
+                                 'detail': {'lifetime': li, 'config': cfg, 'error': repr(e)[:200]}})
+                    log.add('life', li, 'eager-ctor-raised')
+                    continue
             ref = refs[ck]
             if prev_cfg is not None and prev_cfg != ck:
                 probe('config_changed_between_lifetimes')
